@@ -9,6 +9,7 @@ import (
 	"regexp"
 	"runtime"
 	"runtime/pprof"
+	"sort"
 	"strings"
 	"time"
 
@@ -247,6 +248,9 @@ func main() {
 			reachModel: map[string][]inputRec{}, funcs: map[string]string{}, initFailed: map[string]string{},
 			sumFail: map[string]int{}, ufs: map[string]bool{}, replay: replayIn, params: params, setargs: setargs, noPresolve: *noPre,
 		}
+		if os.Getenv("SYMGO_FORKSITES") != "" {
+			ex.forkSites = map[string]int{}
+		}
 		nw := *workers
 		if replayIn != nil {
 			nw = 1
@@ -266,6 +270,23 @@ func main() {
 		}
 		if len(er.FuelOut) > 5 {
 			er.FuelOut = append(er.FuelOut[:5], fmt.Sprintf("... %d more", len(er.FuelOut)-5))
+		}
+		if ex.forkSites != nil {
+			type kv struct {
+				k string
+				v int
+			}
+			var l []kv
+			for k, v := range ex.forkSites {
+				l = append(l, kv{k, v})
+			}
+			sort.Slice(l, func(i, j int) bool { return l[i].v > l[j].v })
+			for i, e := range l {
+				if i >= 25 {
+					break
+				}
+				fmt.Fprintf(os.Stderr, "forks %6d  %s\n", e.v, e.k)
+			}
 		}
 		switch {
 		case len(ex.violations) > 0:
